@@ -34,6 +34,8 @@ func c04MatMul(k *fw.K, ba, bb []int, m, n, kk int, ints bool) {
 	} else {
 		a, b = Shuffled(k.Rng, Unique(k.Rng, sa, 0.1, 3)), Shuffled(k.Rng, Unique(k.Rng, sb, 0.1, 3))
 	}
+	c04Sparsify(k, a, m*n)
+	c04Sparsify(k, b, n*kk)
 	in := ref.Instr{Op: "matmul"}
 	k.Case = fcase{In: in, Ops: []*ref.T{a, b}}
 	want, err := ref.Apply(in, []*ref.T{a, b})
@@ -63,6 +65,49 @@ func c04MatMul(k *fw.K, ba, bb []int, m, n, kk int, ints bool) {
 		k.Failf("MatMul identities on %v x %v: panic: %v", sa, sb, p)
 	} else if msg != "" {
 		k.Failf("MatMul identities on %v x %v: %s", sa, sb, msg)
+	}
+}
+
+// c04Sparsify: in a third of the cases exact zeros (and negative zeros) are put into the operand: scattered, a whole row of
+// the last dimension, a whole matrix of the batch, or everything EXCEPT in the first matrix of the batch - zero patterns that
+// differ between batch entries.
+func c04Sparsify(k *fw.K, t *ref.T, matrix int) {
+	r := k.Rng
+	if r.Intn(3) != 0 || len(t.Data) < 2 {
+		return
+	}
+	k.Count("operands_with_exact_zeros", 1)
+	zero := func(i int) {
+		t.Data[i] = 0
+		if r.Intn(4) == 0 {
+			t.Data[i] = math.Copysign(0, -1)
+		}
+	}
+	switch r.Intn(4) {
+	case 0:
+		for i := range t.Data {
+			if r.Intn(5) < 2 {
+				zero(i)
+			}
+		}
+	case 1: // zeros only in the first matrix of the batch
+		for i := 0; i < matrix && i < len(t.Data); i++ {
+			if r.Intn(2) == 0 {
+				zero(i)
+			}
+		}
+	case 2: // zeros everywhere except in the first matrix
+		for i := matrix; i < len(t.Data); i++ {
+			if r.Intn(2) == 0 {
+				zero(i)
+			}
+		}
+	default: // one whole matrix of the batch
+		nb := len(t.Data) / matrix
+		e := r.Intn(nb)
+		for i := e * matrix; i < (e+1)*matrix; i++ {
+			zero(i)
+		}
 	}
 }
 
